@@ -62,6 +62,12 @@ func writeDelimitedMessageRaw(out io.Writer, data []byte) error {
 	if _, err := out.Write(lenBuffer[:]); err != nil {
 		return err
 	}
+	if len(data) == 0 {
+		// Nothing more to send. A zero-length write is not a no-op on an
+		// io.Pipe: it blocks until the peer reads again, and fails if the
+		// peer goes away instead, although the message was delivered in full.
+		return nil
+	}
 	if _, err := out.Write(data); err != nil {
 		return err
 	}
